@@ -507,7 +507,18 @@ pub fn send_with_body(rb: attohttpc::RequestBuilder, body: &BodySpec) -> Sent {
                 mb = mb.with_file(attohttpc::MultipartFile::new("upload", d).with_filename("f.bin").with_type("image/png").expect("valid mime"));
             }
             let r = match mb.build() {
-                Ok(m) => rb.body(m).send(),
+                Ok(m) => {
+                    let mut rb = rb.body(m);
+                    if text.len() % 2 == 1 {
+                        // asking the body for its content type (the only way to learn the boundary ahead of time) changes nothing
+                        let a = rb.inspect().body().content_type().ok().flatten();
+                        let b = rb.inspect().body().content_type().ok().flatten();
+                        if a.is_none() || a != b {
+                            return Sent { result: Err(attohttpc::ErrorKind::InvalidMimeType(format!("harness: content_type() answered {a:?}, then {b:?}")).into()), expect: ExpectBody::Opaque, known_length: Some(false), default_content_type: None };
+                        }
+                    }
+                    rb.send()
+                }
                 Err(e) => Err(e),
             };
             Sent { result: r, expect: ExpectBody::Opaque, known_length: Some(false), default_content_type: None }
